@@ -6,6 +6,8 @@ independently of the crate; the theorems say the model of the parser + expansion
 -/
 import EspadaVerif.Lemmas.TokenFacts
 import EspadaVerif.Lemmas.RangeAux
+import EspadaVerif.Lemmas.NotationToken
+import EspadaVerif.Lemmas.NotationList
 import EspadaVerif.Props.C09
 
 namespace EspadaVerif.C05
@@ -22,11 +24,73 @@ theorem C05_token (wt : WText W) (hempty : wt.parseW [] = none) (t : Spec.WfToke
     (suffix : Bytes) (hs : SuffixOk suffix) :
     ∃ tok es, parseToken wt (t.text ++ suffix) = .ok tok ∧ tok.expand = .ok es
       ∧ (codesOf es).Perm t.denote ∧ (codesOf es).Nodup ∧ ∀ e ∈ es, e.2 = suffixWeight wt suffix := by
-  sorry
+  obtain ⟨kind, cs, hparse, hexp, hcodes⟩ := NotationToken.token_core wt t ht suffix hs
+  have hw : TokenFacts.sufW wt suffix = suffixWeight wt suffix :=
+    TokenFacts.sufW_eq_suffixWeight wt hempty suffix ((TokenFacts.isWeightSuffix_iff suffix).mpr hs)
+  rw [hw] at hparse
+  have hco : codesOf (cs.map fun c => (c, suffixWeight wt suffix)) = t.denote := by
+    rw [← hcodes, codesOf, List.map_map]
+    rfl
+  refine ⟨_, _, hparse, hexp _, ?_, ?_, ?_⟩
+  · rw [hco]
+  · rw [hco]
+    exact NotationToken.denote_nodup t ht
+  · intro e he
+    obtain ⟨c, _, rfl⟩ := List.mem_map.mp he
+    rfl
 
 /-- the weight a list of tokens assigns to a combo: that of the LAST token denoting it -/
 def lastWeight (wt : WText W) (ts : List (Spec.WfToken × Bytes)) (c : Nat × Nat) : Option W :=
   (ts.reverse.find? fun p => p.1.denote.contains c).map fun p => suffixWeight wt p.2
+
+/-- the block a token's expansion pushes on the history answers exactly for the combos the token denotes -/
+theorem lookup_expansion (es : List (Combo × W)) (w : W) (hw : ∀ e ∈ es, e.2 = w)
+    (hok : ∀ e ∈ es, ComboOk e.1) (D : List (Nat × Nat)) (hperm : (codesOf es).Perm D) (c : Combo)
+    (hc : ComboOk c) :
+    HandRange.lookup es.reverse c = if D.contains (comboCodes c) then some w else none := by
+  have hiff : c ∈ es.reverse.map (·.1) ↔ comboCodes c ∈ D := by
+    rw [← hperm.mem_iff]
+    simp only [codesOf, List.mem_map, List.mem_reverse]
+    constructor
+    · rintro ⟨e, he, rfl⟩
+      exact ⟨e, he, rfl⟩
+    · rintro ⟨e, he, hcode⟩
+      exact ⟨e, he, NotationList.comboCodes_inj (hok e he) hc hcode⟩
+  by_cases hm : comboCodes c ∈ D
+  · rw [if_pos (by simpa using hm)]
+    exact NotationList.lookup_const_mem _ w (fun e he => hw e (List.mem_reverse.mp he)) c (hiff.mpr hm)
+  · rw [if_neg (by simpa using hm)]
+    exact NotationList.lookup_not_mem _ c (fun h => hm (hiff.mp h))
+
+/-- the insert loop over the texts of a list of well-formed tokens, from any history `m` -/
+theorem go_spec (wt : WText W) (hempty : wt.parseW [] = none) (ts : List (Spec.WfToken × Bytes))
+    (hts : ∀ p ∈ ts, p.1.wf = true ∧ SuffixOk p.2) (m : HandRange W) :
+    ∃ r, parseRange.go wt (ts.map fun p => p.1.text ++ p.2) m = .ok r
+      ∧ ∀ c : Combo, ComboOk c → r.lookup c = (lastWeight wt ts (comboCodes c)).or (m.lookup c) := by
+  induction ts generalizing m with
+  | nil =>
+    exact ⟨m, rfl, fun c _ => by simp [lastWeight]⟩
+  | cons p ts ih =>
+    obtain ⟨hwf, hsuf⟩ := hts p List.mem_cons_self
+    obtain ⟨tok, es, hparse, hexp, hperm, _, hw⟩ := C05_token wt hempty p.1 hwf p.2 hsuf
+    have hok : ∀ e ∈ es, ComboOk e.1 := by
+      obtain ⟨es', hes', hall⟩ := TokenFacts.expand_ok tok (TokenFacts.parseToken_tokenOk wt _ tok hparse).1
+      rw [hexp] at hes'; cases hes'
+      exact fun e he => (hall e he).1
+    obtain ⟨r, hr, hlook⟩ := ih (fun q hq => hts q (List.mem_cons_of_mem _ hq))
+      (es.reverse ++ m)
+    refine ⟨r, ?_, fun c hc => ?_⟩
+    · simp only [List.map_cons, parseRange.go, hparse, hexp, RangeAux.foldl_insert_eq]
+      exact hr
+    · rw [hlook c hc, NotationList.lookup_append,
+        lookup_expansion es _ hw hok p.1.denote hperm c hc]
+      simp only [lastWeight, List.reverse_cons, List.find?_append]
+      cases hfind : ts.reverse.find? (fun q => q.1.denote.contains (comboCodes c)) with
+      | some q => simp
+      | none =>
+        by_cases hm : comboCodes c ∈ p.1.denote
+        · simp [List.find?, hm]
+        · simp [List.find?, hm]
 
 /-- **C05 (list).** Parsing a comma-separated list of well-formed tokens, with spaces anywhere, yields exactly the
 combos the tokens denote; where tokens overlap the later token's weight applies; the empty list is the empty range. -/
@@ -34,11 +98,33 @@ theorem C05_list (wt : WText W) (hempty : wt.parseW [] = none) (ts : List (Spec.
     (hts : ∀ p ∈ ts, p.1.wf = true ∧ SuffixOk p.2) (s : Bytes)
     (hs : stripSpaces s = joinCommas (ts.map fun p => p.1.text ++ p.2)) :
     ∃ r, parseRange wt s = .ok r ∧ ∀ c : Combo, ComboOk c → r.lookup c = lastWeight wt ts (comboCodes c) := by
-  sorry
+  have htexts : ∀ t ∈ ts.map (fun p => p.1.text ++ p.2), ∀ b ∈ t, b ≠ 44 := by
+    intro t ht
+    obtain ⟨p, hp, rfl⟩ := List.mem_map.mp ht
+    exact NotationList.tokenText_nocomma p.1 p.2 (hts p hp).2
+  rw [RangeAux.parseRange_unfold, hs]
+  cases ts with
+  | nil =>
+    refine ⟨[], by simp [joinCommas], fun c _ => ?_⟩
+    simp [HandRange.lookup, lastWeight]
+  | cons p ts' =>
+    have hne : joinCommas ((p :: ts').map fun p => p.1.text ++ p.2) ≠ [] := by
+      apply NotationList.joinCommas_ne_nil _ (by simp)
+      intro t ht
+      obtain ⟨q, _, rfl⟩ := List.mem_map.mp ht
+      intro e
+      exact NotationList.text_ne_nil q.1 (List.append_eq_nil_iff.mp e).1
+    rw [if_neg (by rw [List.length_eq_zero_iff]; exact hne),
+      NotationList.splitCommas_join _ (by simp) htexts]
+    obtain ⟨r, hr, hlook⟩ := go_spec wt hempty (p :: ts') hts []
+    refine ⟨r, hr, fun c hc => ?_⟩
+    rw [hlook c hc]
+    simp [HandRange.lookup]
 
 /-- the empty string, and any string of spaces, is the empty range -/
 theorem C05_empty (wt : WText W) (s : Bytes) (h : ∀ b ∈ s, b = 32) : parseRange wt s = .ok [] := by
-  sorry
+  rw [RangeAux.parseRange_unfold, NotationList.stripSpaces_spaces s h]
+  rfl
 
 /-- '44' / 'JTs' / '72o' denote 6 / 4 / 12 combos; 'QQ+' three pairs; 'A9s+' five kickers; '88-66' three pairs -/
 theorem C05_counts :
